@@ -641,6 +641,9 @@ def _with_optional_kwargs(
 @hide_trace
 def _parse_kwargs(kwargs: GuppyKwargs) -> UnitaryFlags:
     """Parses the kwargs dict specified in the `@guppy` decorator."""
+    # Work on a copy: the dict belongs to the decorator object returned by
+    # `guppy(...)`, which may be applied to more than one function
+    kwargs = kwargs.copy()
     flags = UnitaryFlags.NoFlags
     if kwargs.pop("unitary", False):
         flags |= UnitaryFlags.Unitary
